@@ -284,6 +284,20 @@ func c12SiteText(stackField string) (text, host string, err error) {
 	return b.String(), host, nil
 }
 
+// c12SpellTags: coverage tags of a stack given as written.
+func c12SpellTags(stackField string) []string {
+	tags := []string{"as-written"}
+	for _, t := range strings.Split(stackField, ",") {
+		name, lines, spelled := strings.Cut(t, "=")
+		if spelled {
+			tags = append(tags, fmt.Sprintf("%s-lines=%d", name, strings.Count(lines, "|")+1))
+		} else if c12Layout[t] {
+			tags = append(tags, "layout="+t)
+		}
+	}
+	return tags
+}
+
 // ---- the spellings the generator uses ----
 //
 // per directive: spellings[0] is "absent"; the others are line lists.  The comment gives the
